@@ -9,6 +9,7 @@ import (
 	"strings"
 
 	"golang.org/x/tools/go/packages"
+	"golang.org/x/tools/go/ssa"
 	"golang.org/x/tools/go/types/typeutil"
 )
 
@@ -424,4 +425,75 @@ func runEDrop(c *Ctx, r *Report, rels []string, min int) {
 		r.Fail("E-DROP", s.Key, c.pos(s.Pos), "violation", fmt.Sprintf("the error result of %s is discarded in %s and nothing discharges it: a failure here is silently ignored", name, s.Caller))
 	}
 	r.Extra("edrop_classes", classes)
+	runEUnused(c, r, rels, drops)
+}
+
+// E-UNUSED: an error value that is bound to a name but never looked at (overwritten or abandoned before any test).
+// On SSA form such a value has no referrers; sites already listed by E-DROP (blank identifier, bare call) are skipped.
+func runEUnused(c *Ctx, r *Report, rels []string, drops []dropSite) {
+	r.Rule("E-UNUSED", "no error-typed call result is bound to a variable and then never read (overwritten or left behind before any test): on SSA form every error result of a call has at least one use, apart from the discards E-DROP already lists", 0)
+	listed := map[token.Pos]bool{}
+	for _, d := range drops {
+		listed[d.Call.Lparen] = true
+	}
+	relSet := map[string]bool{}
+	for _, rel := range rels {
+		relSet[rel] = true
+	}
+	n := 0
+	for _, f := range c.repoFuncs() {
+		if f.Pkg == nil || f.Blocks == nil {
+			continue
+		}
+		rel := strings.TrimPrefix(strings.TrimPrefix(f.Pkg.Pkg.Path(), modPath), "/")
+		if rels != nil && !relSet[rel] {
+			continue
+		}
+		ord := map[string]int{}
+		for _, b := range f.Blocks {
+			for _, in := range b.Instrs {
+				var call *ssa.Call
+				unused := false
+				switch x := in.(type) {
+				case *ssa.Call:
+					if isErrorType(x.Type()) && liveRefs(x.Referrers()) == 0 {
+						call, unused = x, true
+					}
+				case *ssa.Extract:
+					if cl, ok := x.Tuple.(*ssa.Call); ok && isErrorType(x.Type()) && liveRefs(x.Referrers()) == 0 {
+						call, unused = cl, true
+					}
+				}
+				if !unused || call == nil || !call.Pos().IsValid() || listed[call.Pos()] {
+					continue
+				}
+				n++
+				name := "<dynamic>"
+				if cal := call.Common().StaticCallee(); cal != nil {
+					name = shortFn(cal)
+				} else if call.Common().Method != nil {
+					name = call.Common().Method.Name()
+				}
+				key := fmt.Sprintf("%s:%s#%d", shortFn(f), name, ord[name])
+				ord[name]++
+				r.Fail("E-UNUSED", key, c.pos(call.Pos()), "violation", "the error returned here is stored but never examined: a failure is silently ignored")
+			}
+		}
+	}
+	if n == 0 {
+		r.Pass("E-UNUSED", "all error results", "", "every named error result is read")
+	}
+}
+
+func liveRefs(refs *[]ssa.Instruction) int {
+	if refs == nil {
+		return 0
+	}
+	n := 0
+	for _, x := range *refs {
+		if _, dbg := x.(*ssa.DebugRef); !dbg {
+			n++
+		}
+	}
+	return n
 }
